@@ -26,10 +26,15 @@ Entries ==
                                   "auto", "auto-admittance"}]
     \cup [entry : {"kk-exploratory", "kk-log-F-ext"}, variant : {"real", "complex"}]
     \cup [entry : {"zhit"}, variant : {"default", "auto", "admittance", "custom-weights"}]
-    \cup [entry : {"drt"}, variant : {"tr-nnls-real", "tr-nnls-imaginary", "lm", "bht", "mrq-fit"}]
-    \cup [entry : {"fit"}, variant : {"leastsq-boukamp", "nelder-modulus", "two-methods", "fixed-parameter"}]
+    \cup [entry : {"drt"}, variant : {"tr-nnls-real", "tr-nnls-imaginary", "lm", "bht", "mrq-fit",
+                                     "mrq-fit-defaults",      \* a circuit whose parameters are all at their defaults (initial values are derived from the data)
+                                     "mrq-fit-from-fit"}]     \* a FitResult instead of a circuit
+    \* fits: the circuit's initial values are user-provided or all defaults
+    \cup [entry : {"fit"}, variant : {"leastsq-boukamp", "nelder-modulus", "two-methods", "fixed-parameter", "defaults"}]
 MaskPatterns == {"none", "first", "last", "middle", "two", "alternate", "ends"}
 Orders == {"desc", "asc"}
+\* passive: Re(Z) > 0 everywhere; active: a negative differential resistance, Re(Z) and Re(Y) change sign
+Spectra == {"passive", "active"}
 
 \* ---- the life cycle (used by TraceAnalysis) -----------------------------------
 \* a read is legitimate iff it asks for the unmasked view through a getter
